@@ -8,7 +8,7 @@ dirs = sorted(glob.glob("/verif/seeded/C*-?"))
 if args:
     dirs = [d for d in dirs if os.path.basename(d) in args]
 # changes that break the named property only through a route that belongs to another listed property (see DESIGN.md 9.4)
-OTHER_CHECK = {"C07-g": "C14", "C02-h": "C07", "C01-i": "C06", "C02-j": "C07", "C11-l": "C07", "C03-r": "C12", "C16-w": "C17"}
+OTHER_CHECK = {"C07-g": "C14", "C02-h": "C07", "C01-i": "C06", "C02-j": "C07", "C11-l": "C07", "C03-r": "C12", "C16-w": "C17", "C04-x": "C13"}
 out = {}
 if args and os.path.exists("/verif/seeded/regression.json"):
     out = json.load(open("/verif/seeded/regression.json"))  # partial run: keep the other results
